@@ -103,6 +103,19 @@ CLAIMS = {
         tech="static analysis: regex syntax tree -> NFA x Aho-Corasick product reachability (language inclusion with witness), truth-table evaluation of comprehension predicates, path-sensitive guard check",
         ref="DESIGN.md section 2/C13",
     ),
+    "C15": dict(
+        cat="other",
+        text="Determinism is decided through its structural sources over the mypy-resolved call graph from get_citations (67+ "
+        "functions incl. properties, stored constructors, nested callbacks): every use of every set-typed expression is classified "
+        "(no iteration order reaches a value), builtin hash() of non-ints is confined to helper-class __hash__, the transitive "
+        "write-set of get_citations over non-fresh objects contains only the two hasattr-guarded memos (no module-level, tokenizer, "
+        "extractor or argument writes), and ambient reads are enumerated (two clock reads, stated as an assumption). 'other': "
+        "thread-safety of C extensions and the method purity tables are assumed, not proved.",
+        note="Assumes regex/lxml/pyahocorasick/hyperscan objects are safe for concurrent reads; same calendar year for both runs; "
+        "classification tables of builtin/third-party calls in sa/effects.py.",
+        tech="static analysis: type-resolved call graph (mypy as library) + transitive effect analysis with receiver provenance (fresh / element / parameter / global) + set-order leak classification",
+        ref="DESIGN.md section 2/C15",
+    ),
 }
 
 NA = {
@@ -118,6 +131,7 @@ ENGINES = [
     ("setorder", "sa/setorder.py", "classification of every use of a set-valued expression (order leak vs. order-insensitive)"),
     ("annot", "sa/annot.py", "cursor-loop model of annotate_citations: per-path symbolic state, order facts, callee summaries"),
     ("selftest", "sa/selftest.py + sa/mutants.py", "thorough tier: breaking/benign variants of /repo analysed in scratch copies (two-way validation of the checker)"),
+    ("typed", "sa/typed.py", "one mypy build of /repo/eyecite per run: expression types keyed by position (receiver types, set types, Optional operands)"),
     ("rx", "sa/rx.py", "regex-AST engine: NFA over symbolic alphabet, Aho-Corasick product search with witness, group participation"),
     ("materialize", "sa/materialize.py", "build step: dumps the generated extractor table (patterns, flags, strings, editions) from /repo"),
     ("hashrules", "sa/hashrules.py", "equality/hash discipline of citation classes (read-sets, class tag, identity cases)"),
